@@ -273,8 +273,27 @@ def r2(ctx):
                 sl_ = b.slice_op(o_, int_barrier=False)
                 if 1 in sl_.params and not sl_.has_call(r"regex::Regex::(captures|captures_at|is_match|find)$"):
                     raw_conds.append((a_, c_.get("callee", c_.get("op", "?")).split("::")[-1]))
+    # ... and each Err sits directly on the failing edge of the pattern match or of one of chrono's checked constructors:
+    # no further test on the parsed fields (a "strictness" check on the sign, the offset, the year ..) refuses a string the
+    # reference parser accepts
+    DECIDERS = r"regex::Regex::captures(_at)?$|chrono::FixedOffset::(east|west)_opt$|chrono::NaiveDate::from_ymd_opt$|chrono::NaiveTime::from_hms(_nano|_micro|_milli)?_opt$|chrono::TimeZone::from_local_datetime$|LocalResult::<T>::single$|chrono::NaiveDate::and_hms\w*_opt$|ops::Try::branch$|Option::<T>::ok_or(_else)?$"
+    for eb, i_, s_ in result_aggs(b, "Err"):
+        for a_ in sorted({a_ for a_, sx_ in b.control_deps().get(eb, ())}):
+            c_ = b.cond_of_switch(a_)
+            okd = False
+            if c_ and c_["kind"] == "discr":
+                od_ = b.origin_def({"copy": c_["place"]})  # (also a component of a tuple of results matched at once)
+                if od_ and od_[0] == "place":
+                    od_ = b.origin_def({"copy": {"local": od_[1]["local"], "proj": []}})
+                hops_ = 0
+                while od_ and od_[0] == "def" and od_[1]["kind"] == "call" and re.search(r"ops::Try::branch$|Option::<T>::ok_or(_else)?$|LocalResult::<T>::single$", od_[1]["term"]["callee"]) and hops_ < 4:
+                    od_ = b.origin_def(od_[1]["term"]["args"][0])
+                    hops_ += 1
+                okd = bool(od_ and od_[0] == "def" and od_[1]["kind"] == "call" and re.search(DECIDERS, od_[1]["term"]["callee"]))
+            if not okd:
+                raw_conds.append((a_, "a test on parsed fields (%s)" % ((c_ or {}).get("callee") or (c_ or {}).get("op") or (c_ or {}).get("kind") or "?").split("::")[-1]))
     if raw_conds:
-        yield VIOL("C16-R2", "parse/raw-input-condition", "a refusal depends on the raw input outside the pattern (%s): a string the pattern accepts can be rejected" % sorted({w for _, w in raw_conds}), where=b.span_of_block(raw_conds[0][0]))
+        yield VIOL("C16-R2", "parse/raw-input-condition", "a refusal is decided by something other than the pattern match / a checked constructor (%s): a string the pattern accepts can be rejected" % sorted({w for _, w in raw_conds}), where=b.span_of_block(raw_conds[0][0]))
     else:
         yield PASS("C16-R2", "parse/refusals-by-pattern", "every Err is decided by the pattern match or a checked constructor", [])
     # the regex used is ISO_8601_REGEX and the whole input is matched
